@@ -282,6 +282,8 @@ func (m *machine) registerAtomicIntrinsics() {
 		}
 		return out
 	}
+	in["internal/stringslite.Clone"] = func(fr *frame, fn *ssa.Function, args []value) value { return args[0] }
+	in["strings.Clone"] = func(fr *frame, fn *ssa.Function, args []value) value { return args[0] }
 	in["internal/abi.NoEscape"] = func(fr *frame, fn *ssa.Function, args []value) value { return args[0] }
 	// atomic.Value: the cell holds the stored interface value in a side table
 	in["(*sync/atomic.Value).Load"] = func(fr *frame, fn *ssa.Function, args []value) value {
